@@ -852,11 +852,14 @@ impl BuiltInFunction {
                             .with_context(|| format!("`{i128}` cannot be made into a int"))?,
                     ),
                     Primitive::Byte(u8) => Primitive::Int(*u8 as i32),
-                    Primitive::Float(f64) => Primitive::Int(
-                        (*f64 as i64)
-                            .try_into()
-                            .with_context(|| format!("`{f64}` cannot be made into a int"))?,
-                    ),
+                    Primitive::Float(f64) => {
+                        let whole = f64.trunc();
+                        // NaN fails both comparisons
+                        if !(whole >= i32::MIN as f64 && whole <= i32::MAX as f64) {
+                            bail!("`{f64}` cannot be made into a int")
+                        }
+                        Primitive::Int(whole as i32)
+                    }
                     bad => unreachable!("{bad}"),
                 };
 
@@ -871,7 +874,14 @@ impl BuiltInFunction {
                     Primitive::Int(i32) => Primitive::BigInt(*i32 as i128),
                     Primitive::BigInt(i128) => Primitive::BigInt(*i128),
                     Primitive::Byte(u8) => Primitive::BigInt(*u8 as i128),
-                    Primitive::Float(f64) => Primitive::BigInt((*f64 as i64).into()),
+                    Primitive::Float(f64) => {
+                        let whole = f64.trunc();
+                        // i128::MAX as f64 is 2^127, the first value that does not fit
+                        if !(whole >= i128::MIN as f64 && whole < i128::MAX as f64) {
+                            bail!("`{f64}` cannot be made into a bigint")
+                        }
+                        Primitive::BigInt(whole as i128)
+                    }
                     bad => unreachable!("{bad}"),
                 };
 
@@ -892,11 +902,13 @@ impl BuiltInFunction {
                             .with_context(|| format!("`{i128}` cannot be made into a byte"))?,
                     ),
                     Primitive::Byte(u8) => Primitive::Byte(*u8),
-                    Primitive::Float(f64) => Primitive::Byte(
-                        (*f64 as i64)
-                            .try_into()
-                            .with_context(|| format!("`{f64}` cannot be made into a byte"))?,
-                    ),
+                    Primitive::Float(f64) => {
+                        let whole = f64.trunc();
+                        if !(whole >= u8::MIN as f64 && whole <= u8::MAX as f64) {
+                            bail!("`{f64}` cannot be made into a byte")
+                        }
+                        Primitive::Byte(whole as u8)
+                    }
                     bad => unreachable!("{bad}"),
                 };
 
